@@ -226,7 +226,9 @@ pub mod s_sig {
         pub tag: Vec<String>,
     }
 
-    #[response(status = CREATED)]
+    // a 3xx success status, as `sso_login` has: the receiving side treats every status below 400 as
+    // success (`response.status().as_u16() < 400`), not only 2xx
+    #[response(status = FOUND)]
     pub struct Response {
         pub s: String,
     }
